@@ -12,6 +12,7 @@ type ReplayFn = fn(&Value, &mut Tally);
 
 fn registry() -> Vec<(&'static str, RunFn, ReplayFn)> {
     vec![
+        ("C05", props::c05::run, props::c05::replay),
         ("C16", props::c16::run, props::c16::replay),
     ]
 }
